@@ -485,9 +485,24 @@ func leakedGoroutines() []string {
 		buf = make([]byte, 2*len(buf))
 	}
 	var out []string
+	// only this run's bubble: a goroutine left blocked forever by an earlier run of the same
+	// worker process (already reported there) must not be charged to this one
+	bubble := ""
+	for _, g := range strings.Split(string(buf), "\n\n") {
+		head, _, _ := strings.Cut(g, "\n")
+		if strings.Contains(head, "[running") {
+			if i := strings.Index(head, "synctest bubble "); i >= 0 {
+				bubble = strings.TrimRight(head[i:], "]:")
+			}
+			break
+		}
+	}
 	for _, g := range strings.Split(string(buf), "\n\n") {
 		head, _, _ := strings.Cut(g, "\n")
 		if !strings.Contains(head, "synctest bubble") || strings.Contains(head, "[running") {
+			continue
+		}
+		if bubble != "" && !strings.HasSuffix(strings.TrimRight(head, "]:"), bubble) {
 			continue
 		}
 		if strings.Contains(g, "internal/synctest.Run(") || strings.Contains(g, "synctest.testingSynctestTest(") || strings.Contains(g, "testing.tRunner(") {
@@ -510,7 +525,7 @@ func (cx *clusterRun) drainAndCheckLeaks(grace time.Duration) (lib []string, har
 		if i := strings.LastIndex(g, "created by "); i >= 0 {
 			created = g[i:]
 		}
-		if strings.Contains(created, "zz_verif_") && !strings.Contains(g, "/repo/") {
+		if strings.Contains(created, "zz_verif_") && !strings.Contains(g, repoRoot()+"/") {
 			harness = append(harness, g)
 		} else if strings.Contains(created, "zz_verif_") && strings.Contains(g, "memberlist.(*Memberlist)") {
 			lib = append(lib, g) // API call blocked inside the library
